@@ -195,7 +195,20 @@ def judge(case, o, m):
     exp_len = 1 if exp_kind == "scalar" else n
     # ---- container kind and length
     if o["kind"] != exp_kind:
+        # independent of the model where the statement alone fixes the container: a
+        # MeasurementArray among the operands gives a MeasurementArray; only plain lists (and
+        # numbers) give a list; only plain ndarrays (and numbers) give an ndarray
+        ks = {l["k"] for l in case["leaves"]}
+        cont = ks & {"marray", "listNum", "ndarrayNum"}
+        stated = None
+        if "marray" in cont:
+            stated = "marray"
+        elif cont == {"listNum"} and not ks & {"quantity", "pair"}:
+            stated = "list"
+        elif cont == {"ndarrayNum"} and not ks & {"quantity", "pair"}:
+            stated = "ndarray"
         fail("container", "result container is {} but should be {}".format(o["kind"], exp_kind),
+             indep=(stated is not None and stated == exp_kind),
              impl=o["kind"], expected=exp_kind, clause="container kind")
         return fails, False
     if o["len"] != exp_len or m["len"] != exp_len:
